@@ -389,7 +389,16 @@ class CallMixin:
             for a in args[1:]:
                 st, _ = self.ev(st, a)
             if len(args) == 1:
-                self.may_raise(st, e, "StopIteration", "next", "next() on an exhausted iterator")
+                nonempty = False
+                a0 = args[0]
+                if isinstance(a0, ast.Call) and isinstance(a0.func, ast.Name) and a0.func.id == "iter" and len(a0.args) == 1:
+                    la = self.len_atom(a0.args[0])
+                    if la is not None and st.f.entails_ge(Lin.atom(la).shift(-1)):
+                        nonempty = True
+                if nonempty:
+                    self.oblige(st, e, "next", "StopIteration", True, "iterator over a non-empty container", by=f"{la} >= 1")
+                else:
+                    self.may_raise(st, e, "StopIteration", "next", "next() on an exhausted iterator")
             return st, AVal(taint=v.taint)
         return None
 
@@ -422,7 +431,10 @@ class CallMixin:
             if attr == "pop" and bkind == "dict" and len(e.args) == 1:
                 d = self.atom_of(f.value)
                 k = self.atom_of(e.args[0])
-                if d is not None and k is not None and st.f.has_pred(("in", k, d)):
+                own_key = unparse(e.args[0]) == f"next(iter({unparse(f.value)}))"
+                if own_key:
+                    self.oblige(st, e, "key", "KeyError", True, "key taken from the dict itself", by="next(iter(d)) is a key of d")
+                elif d is not None and k is not None and st.f.has_pred(("in", k, d)):
                     self.oblige(st, e, "key", "KeyError", True, "key present", by=f"{k} in {d}")
                 elif argvals[0].taint:
                     self.oblige(st, e, "key", "KeyError", False,
@@ -774,6 +786,9 @@ class CallMixin:
                 if v.elem is not None or v.elems is not None:
                     self.note_attr_val(k, v)
         ret.fields = fields
+        if not self.__dict__.get("_quiet", 0):
+            for ob in self.__dict__.get("ctor_observers", ()):
+                ob(node, ci, fields, self)
         return ret
 
     def _dataclass_of(self, call: ast.Call):
